@@ -134,6 +134,26 @@ func Sets() []*Set {
 		Attrs: []string{"title"}, Vals: []string{"x"}, MaxRank: 3,
 		Quick: true, FileKV: "thorough", DupsQuick: "ends", DupsThorough: "all"})
 
+	// 3a. a three-level chain on the permanode (delete, undelete, delete again), with the blobs
+	// chosen so that their refs sort d1 < pn < d2: loaders that walk the "deleted|" rows in
+	// target order then meet pn's row before they know that d1 is itself deleted
+	{
+		var cp, c1, c2, c3 hs.Blob
+		for i := 0; ; i++ {
+			cp = A.Permanode(fmt.Sprintf("chain-pn-%d", i))
+			c1 = A.Delete("chain-del1", cp.Ref, T(2))
+			c2 = A.Delete("chain-del2", c1.Ref, T(3))
+			if c1.Ref.Less(cp.Ref) && cp.Ref.Less(c2.Ref) {
+				c3 = A.Delete("chain-del3", c2.Ref, T(4))
+				break
+			}
+		}
+		cp.Name = "chain-pn"
+		add(&Set{Name: "delete-chain3-ordered", Blobs: []hs.Blob{A.Pub, cp, c1, c2, c3},
+			MaxRank: 4,
+			Quick: true, FileKV: "thorough", DupsQuick: "none", DupsThorough: "ends"})
+	}
+
 	// 3b. everything about deletion at once (6 blobs)
 	add(&Set{Name: "delete-all-kinds", Blobs: []hs.Blob{A.Pub, pn, setTitle, delPn, delClaim, undel},
 		Attrs: []string{"title"}, Vals: []string{"x"}, MaxRank: 3,
